@@ -8,7 +8,8 @@ Ltac Zify.zify_post_hook ::= Z.div_mod_to_equations.
 Definition pstart (p : pos) : N := p_bid p * blockSize + p_off p.
 
 Definition wf_lfile (f : lfile) : Prop :=
-  forall r p, In (r, p) (lf_recs f) -> pstart p < lf_size f /\ p_off p < blockSize.
+  forall r p, In (r, p) (lf_recs f) ->
+    pstart p < lf_size f /\ p_off p < blockSize /\ pstart p + p_size p <= lf_size f /\ 0 < p_size p.
 
 Lemma wf_lf_empty : wf_lfile lf_empty.
 Proof. intros r p []. Qed.
@@ -114,11 +115,12 @@ Proof.
     by (unfold lf_bid, lf_bsz; rewrite blockSize_val; lia).
   assert (Hnew : lf_size f1 = pstart p0 + p_size p0) by (rewrite Hsize; unfold n; lia).
   assert (Hnone : lf_lookup (lf_recs f) (p_bid p0) (p_off p0) = None).
-  { eapply lookup_none_beyond; [exact Hwf| |exact Hoff]. unfold pstart in Hge. lia. }
+  { apply (lookup_none_beyond _ (lf_size f)); [|unfold pstart in Hge; lia|exact Hoff].
+    intros r1 p1 Hin. destruct (Hwf r1 p1 Hin) as (A & B & _). auto. }
   split; [|repeat split; try assumption; try lia].
   intros r1 p1 Hin. rewrite Hrecs in Hin. apply in_app_or in Hin. destruct Hin as [Hin|[Heq|[]]].
-  - destruct (Hwf r1 p1 Hin) as [H1 H2]. split; [lia|exact H2].
-  - injection Heq as <- <-. split; [lia|exact Hoff].
+  - destruct (Hwf r1 p1 Hin) as (H1 & H2 & H3 & H4). repeat split; try assumption; lia.
+  - injection Heq as <- <-. repeat split; try assumption; lia.
 Qed.
 
 (* positions of one file are distinct: a lookup of an old position is not disturbed by an append *)
